@@ -54,6 +54,9 @@ MatmulMismatch(x) ==
     \/ /\ x.k = "ttm"
        /\ \E y0 \in TS : y0.cx = x.cx /\ Len(y0.I) = Len(x.I) /\ y0.I # x.J
                          /\ C("matmul", "shape", x, [y |-> Second(y0)], TRUE, TRUE)
+    \/ /\ x.k = "ttm"       \* the DMRG product takes the same operands as A @ x (a singleton mode is not broadcast)
+       /\ \E y0 \in TS : y0.cx = x.cx /\ Len(y0.I) = Len(x.I) /\ y0.I # x.J
+                         /\ C("fast_matvec", "shape", x, [y |-> Second(y0)], TRUE, TRUE)
     \/ /\ x.k = "ttm"
        /\ \E y0 \in MS : y0.cx = x.cx /\ Len(y0.I) = Len(x.I) /\ y0.I # x.J
                          /\ C("matmul", "shape", x, [y |-> Second(y0)], TRUE, TRUE)
